@@ -13,4 +13,10 @@ pub broadcast proof fn axiom_nodeid_derived_eq(a: &NodeId, b: &NodeId)
 pub broadcast proof fn axiom_nodeid_derived_eq_obeys()
     ensures #[trigger] <NodeId as PartialEqSpec<NodeId>>::obeys_eq_spec(),
 {}
-pub broadcast group group_trusted_code { axiom_nodeid_derived_eq, axiom_nodeid_derived_eq_obeys }
+/// T11: the `?` operator converts the error with `From::from` (vstd leaves the relation `spec_from` uninterpreted
+/// except for the identity conversion); `From<alloy_rlp::Error> for Error` itself is verified code (src/error.rs)
+#[verifier::external_body]
+pub broadcast proof fn axiom_question_mark_error(e: alloy_rlp::Error, e2: crate::code::error::Error)
+    ensures #[trigger] vstd::std_specs::control_flow::spec_from(e, e2) ==> e2 == crate::code::error::Error::InvalidRlpData(e),
+{}
+pub broadcast group group_trusted_code { axiom_nodeid_derived_eq, axiom_nodeid_derived_eq_obeys, axiom_question_mark_error }
